@@ -187,6 +187,7 @@ struct Rig
       if (!a.send) return false;
       // setReadMode(Async) after a reusable response fails if the script says so
       tr->_impl->config.allowReadModeSwitch = a.async;
+      bool firstPiece = true;
       for (auto &r : a.rx)
       {
         std::string item = r.substr(0, r.find('/'));
@@ -194,8 +195,11 @@ struct Rig
         if (item[0] == 'd')
         {
           std::string b = unhex(item.substr(1));
-          io.post([this, sid, b]
+          const bool wait = paced && !firstPiece;
+          firstPiece = false;
+          io.post([this, sid, b, wait]
           {
+            if (wait) awaitParkedReader(sid);
             eng->cbs.onData(sid, iora::core::BufferView{reinterpret_cast<const std::uint8_t *>(b.data()), b.size()},
                             std::chrono::steady_clock::now());
           });
@@ -228,6 +232,25 @@ struct Rig
       trace.push_back("X" + std::to_string(sid));
       tr->_impl->config.allowReadModeSwitch = true;
     };
+  }
+
+  // paced delivery (cases "QP"): a piece after the first is handed to the transport only once the client has consumed
+  // everything delivered so far and is parked in receiveSync again, so the client sees exactly the scripted
+  // segmentation (in "Q" cases the pieces coalesce in the sync buffer as timing has it)
+  bool paced = false;
+  void awaitParkedReader(SessionId sid)
+  {
+    auto until = std::chrono::steady_clock::now() + std::chrono::milliseconds(25);
+    while (std::chrono::steady_clock::now() < until)
+    {
+      {
+        std::lock_guard<std::mutex> lk(tr->_impl->syncMutex);
+        auto it = tr->_impl->receiveBuffers.find(sid);
+        if (it == tr->_impl->receiveBuffers.end()) return;
+        if (it->second->data.empty() && it->second->waiters > 0) return;
+      }
+      std::this_thread::sleep_for(std::chrono::microseconds(100));
+    }
   }
 
   Attempt script()
@@ -303,9 +326,10 @@ static Attempt parseAttempt(const std::string &a)
   return r;
 }
 
-static std::string runCase(const std::string &reqs)
+static std::string runCase(const std::string &reqs, bool paced = false)
 {
   Rig rig;
+  rig.paced = paced;
   iora::verif::event = [&rig](const char *tag, std::uint64_t, std::uint64_t)
   {
     if (std::strcmp(tag, "http.client.attempt") == 0) rig.attemptBegins();
@@ -354,6 +378,7 @@ int main(int argc, char **argv)
     try
     {
       if (p[0] == "Q" && p.size() >= 2) r = runCase(p[1]);
+      else if (p[0] == "QP" && p.size() >= 2) r = runCase(p[1], true);
       else r = "BADCASE";
     }
     catch (const std::exception &e)
